@@ -18,6 +18,13 @@ def verus_version():
         return 'unknown'
 
 
+def alt_outdir(repo):
+    """assembled units of a tree other than /repo go to their own directory, so that checks of different trees can run concurrently"""
+    if os.path.abspath(repo) == '/repo':
+        return None
+    return os.path.join(VERIF, 'build', 'alt-' + hashlib.sha256(os.path.abspath(repo).encode()).hexdigest()[:10])
+
+
 def run_unit(unit, repo='/repo', mode='partial', use_cache=True, outdir=None, extra_args=None, rlimit=None):
     """Returns dict(status='ok'|'undecided', reason, meta, functions, errors, verified, n_errors, wall_s, smt_ms, cached, stubbed).
 
@@ -27,6 +34,7 @@ def run_unit(unit, repo='/repo', mode='partial', use_cache=True, outdir=None, ex
     t0 = time.time()
     stub = {}
     last = None
+    outdir = outdir or alt_outdir(repo)
     for attempt in range(8):
         r = _run_once(unit, repo, mode, use_cache, outdir, extra_args, rlimit, set(stub), t0)
         if r.get('resource_limit') and not rlimit:
@@ -199,7 +207,7 @@ def shadow_run(unit, repo='/repo', mode='partial'):
     `r is Ok ==> false` (Result-returning) or `false`; every one of them must FAIL. A function for which the shadow
     clause verifies has a contradictory precondition / assumed contract, or no reachable Ok path."""
     import re as _re
-    meta = asm.assemble(unit, repo, mode)
+    meta = asm.assemble(unit, repo, mode, alt_outdir(repo))
     lines = open(meta['file']).read().split('\n')
     targets = {}
     for f in meta['functions']:
